@@ -38,7 +38,7 @@ THREAD_REPLICA = False   # this monitor uses a process-wide sys.monitoring probe
 
 def shards(tier):
     nh = 10 if tier == 'quick' else 32
-    nt = 6 if tier == 'quick' else 32
+    nt = 10 if tier == 'quick' else 32
     return ([{'name': 'hist%02d' % i, 'kind': 'hist', 'part': i, 'parts': nh} for i in range(nh)] +
             [{'name': 'thread%02d' % i, 'kind': 'thread', 'part': i} for i in range(nt)])
 
@@ -389,7 +389,7 @@ def thread_work(shard, tier, viols, counters, samples, keys, sets):
     specs = thread_specs(rng, tier)
     ref = oracle(specs, '0')
     evals = len(specs)
-    ntrials = 7 if tier == 'quick' else 60
+    ntrials = 8 if tier == 'quick' else 60
     orders = set()
     for t in range(ntrials):
         n = rng.choice((2, 4, 8, 8, 16))
@@ -424,6 +424,9 @@ def thread_work(shard, tier, viols, counters, samples, keys, sets):
                 group = [s for s in specs if s['module'] == 'eu.nace']
             else:
                 group = [s for s in specs if s['func'] in ('info', 'split', 'format', 'get_manufacturer', 'get_birth_place', 'get_campus', 'get_label')]
+            if fam in ('tables', 'registries') and rng.random() < 0.7:
+                one = rng.choice(sorted({s['module'] for s in group}))
+                group = [s for s in group if s['module'] == one]
             plans = []
             for _ in range(n):
                 plan = [rng.choice(group) for _ in range(60)]
